@@ -38,3 +38,168 @@ _sem("C01",
      "shape. Decides the property for all circuits within the bounds under generic valuations.",
      "TLA+ reference semantics (Sem.tla) + TLC state enumeration (CircuitSys.tla) + replay of "
      "every emitted behaviour into cirkit")
+
+_TECH = ("TLA+ reference semantics of the operator (Sem.tla DenTerm) + TLC enumeration of circuits "
+         "and operator applications (CircuitSys.tla ApplyOp) + replay of every emitted behaviour "
+         "into cirkit")
+
+_sem("C03",
+     "TLC enumerates smooth+decomposable circuits (embedding / categorical probs / logits inputs) "
+     "and every non-empty Z (also chains Z1 then Z2, and operands that are products or evidence "
+     "results); the expected table of integrate(c, Z) is the marginal sum of Den(c) computed by "
+     "TLC; the real SF.integrate result is compiled (same compiler as its operand) and compared on "
+     "all assignments under rotating flags.",
+     "Exhaustive TLC enumeration (small constants) of circuits x variable subsets with the marginal "
+     "computed by the reference semantics; each state replayed through SF.integrate + compile.",
+     _TECH)
+_sem("C04",
+     "TLC enumerates circuits, pairs of compatible circuits (two base circuits), squares, chains "
+     "and evidence-conditioned operands; expected = pointwise product of the operand tables with "
+     "outputs (i,j) and units in Kronecker order; refusals are admissible, returned circuits must "
+     "match.",
+     "Exhaustive TLC enumeration of operand circuits and multiply applications with the product "
+     "table from the reference semantics; each state replayed through SF.multiply + compile.",
+     _TECH)
+_sem("C05",
+     "TLC enumerates smooth+decomposable polynomial-input circuits and orders k; the expected "
+     "outputs are the exact k-th partials (truncated Taylor jets over dyadic rationals) in "
+     "increasing variable id followed by the function; variable ids are renumbered with maps whose "
+     "frozenset iteration order differs from sorted order.",
+     "Exhaustive TLC enumeration with exact derivatives by jet arithmetic in the reference "
+     "semantics; each state replayed through SF.differentiate + compile.",
+     _TECH)
+_sem("C06",
+     "TLC enumerates circuits x observed subsets x observed values (and follow-up operators, and "
+     "operand lists for concatenate incl. repeated operands and two distinct circuits); expected = "
+     "restriction of Den / stacking of operand tables.",
+     "Exhaustive TLC enumeration of evidence / concatenate applications with tables from the "
+     "reference semantics; each state replayed through SF.evidence / SF.concatenate + compile.",
+     _TECH)
+_sem("C07",
+     "TLC enumerates circuits with complex (Gaussian-integer) and real parameters, conjugate "
+     "applied once and twice, and on products / integrals; expected = complex conjugate of the "
+     "operand table (reference semantics over complex dyadics).",
+     "Exhaustive TLC enumeration with complex-dyadic reference semantics; each state replayed "
+     "through SF.conjugate + compile (complex-lse-sum for complex parameters).",
+     _TECH)
+
+_TECH_RUN = ("TLA+ state machine of the compile / update / reset / save / load / reload / eval "
+             "history (CircuitSys.tla run phase) over the reference semantics; TLC enumerates the "
+             "histories; each emitted history is replayed into one cirkit compiler per flag set")
+
+_sem("C02",
+     "TLC enumerates circuits and operator pipelines (multi-output, shared sub-circuits, output "
+     "layers that feed other layers, free input order) with, for part of the configurations, "
+     "run-phase histories of single-parameter updates; every behaviour is compiled under the "
+     "four fold x optimize combinations of a rotating semiring (all 12 in thorough), each compared "
+     "with the one flag-free expectation; every symbolic tensor must be exactly one valid, "
+     "non-aliased slice of one compiled tensor, and an update written through that slice must move "
+     "the outputs exactly as the reference semantics says.",
+     "Exhaustive TLC enumeration; the four flag combinations are each compared with the same "
+     "Tier-R table (hence pairwise); addressability is decided semantically by updates through "
+     "the registry slices.",
+     _TECH_RUN)
+_sem("C10",
+     "TLC enumerates operator pipelines (1-3 operators) and every history of <= 4-6 steps over "
+     "{update one tensor (copy or SGD step), reset_parameters, save, load_state_dict, eval}; "
+     "derived circuits are compiled once, before the history, in the same compiler as their "
+     "operands; at every eval step every pool entry must equal the reference denotation under the "
+     "CURRENT store.",
+     "Exhaustive TLC enumeration of update histories over operator pipelines; the defining "
+     "relation is re-imposed by the reference semantics after each step.",
+     _TECH_RUN)
+_sem("C19",
+     "TLC enumerates circuits / pipelines and histories over {update, reset, save, reload (fresh "
+     "compiler + compile + load_state_dict), eval}; after reload the outputs must equal the "
+     "reference denotation under the saved store; state_dict must contain every learnable tensor "
+     "(exactly once for base circuits).",
+     "Exhaustive TLC enumeration of save / reload histories with the expected tables from the "
+     "reference semantics under the saved store.",
+     _TECH_RUN)
+_sem("C13",
+     "TLC computes, by truncated Taylor jets in the designated parameter entry, the exact partial "
+     "derivative of every output/unit with respect to hash-selected entries of every symbolic "
+     "tensor; autograd of the compiled circuit, mapped back through the registry slice and the "
+     "leaf's chart, must equal it under the four fold x optimize combinations (log semirings: "
+     "grad * value); gradients must be finite wherever the value is non-zero.",
+     "Exact derivatives from the TLA+ reference semantics over jets, compared with torch autograd "
+     "per symbolic tensor entry and flag combination.",
+     "TLA+ reference semantics over Taylor jets (Sem.tla, th) + TLC enumeration + autograd replay")
+_sem("C11",
+     "TLC computes the marginal table of every variable subset for each enumerated smooth and "
+     "decomposable circuit with categorical inputs (probabilities / logits, normalised or not); "
+     "IntegrateQuery is called with per-row masks in the three formats (mask tensor, one scope, "
+     "list of scopes), batch sizes 1,2,3,all and the fold counts, and must return per row the "
+     "table entry of that row's mask; out-of-scope variables must be rejected.",
+     "Exhaustive TLC enumeration with marginal tables from the reference semantics; replay through "
+     "IntegrateQuery in all input formats and flag combinations.",
+     "TLA+ reference semantics (IntOver) + TLC enumeration + replay through IntegrateQuery")
+
+
+def _generic(pid, module, rule, text, technique, note=NOTE_SEM, extra_assumptions=()):
+    PROPS[pid] = {
+        "run": lambda tier, seed: module.run(pid, tier, seed, rule,
+                                             COMMON_ASSUMPTIONS + list(extra_assumptions)),
+        "replay": lambda path: module.replay_file(path, pid),
+    }
+    META[pid] = {"text": text, "note": note, "technique": technique,
+                 "design_ref": f"DESIGN.md section 6 ({pid})"}
+
+
+from . import struct_props  # noqa: E402  pylint: disable=wrong-import-position
+
+NOTE_STRUCT = ("Trusted base: TLC's evaluation of specs/Structure.tla (set-based definitions) and of "
+               "the outcome classes in CircuitSys.tla (PreOf); the replayer's builder; for operator "
+               "RESULTS the definitions are re-evaluated on the returned circuit's layer scopes by "
+               "a 20-line definitional function in harness/struct_props.py. Bounded by the "
+               "configuration constants (layers, variables, arity).")
+
+_generic("C08", struct_props,
+         "TLC enumerates layered DAGs over scopes only (non-smooth and non-decomposable ones, "
+         "empty-scope layers, sums and products listing their inputs in any order, one or two "
+         "circuits, multi-output) and computes smooth / decomposable / structured-decomposable / "
+         "compatible from the definitions; cirkit's is_smooth / is_decomposable must be equal, "
+         "is_structured_decomposable / are_compatible must imply the definition, are_compatible "
+         "must be symmetric, and all answers must be invariant under permutations of every product's "
+         "input list and under renumberings of the variables (incl. non-monotone ones).",
+         "Exhaustive TLC enumeration of circuit structures with the predicates decided by their "
+         "definitions in Structure.tla; every state compared with cirkit's answers under input "
+         "permutations and variable renumberings.",
+         "TLA+ definitions (Structure.tla) + TLC enumeration (CircuitSys.tla, EmitStructInv) + "
+         "replay into cirkit's structural predicates", note=NOTE_STRUCT)
+_generic("C09", struct_props,
+         "TLC enumerates circuits (valid and invalid) and operator calls with valid and invalid "
+         "arguments (Invalid = TRUE: empty / out-of-scope Z and observations, orders <= 0, "
+         "non-smooth / non-decomposable operands, incompatible pairs) and computes each call's "
+         "outcome class from the documented contract (PreOf) and the promised scope / number of "
+         "outputs; cirkit must raise StructuralPropertyError / reject / return accordingly and "
+         "every returned circuit must be smooth and decomposable by definition, products of SD "
+         "operands SD and compatible with both operands, conjugation flag-preserving.",
+         "Exhaustive TLC enumeration of operator calls with the contract's outcome class computed "
+         "in TLA+; every call replayed and its outcome / result structure compared.",
+         "TLA+ operator contract (CircuitSys.tla PreOf, Structure.tla) + TLC enumeration + replay "
+         "of every operator call", note=NOTE_STRUCT)
+
+from . import pipeline_props  # noqa: E402  pylint: disable=wrong-import-position
+
+_generic("C18", pipeline_props,
+         "TLC explores Pipeline.tla (2-3 context objects + the default one, <= 2-3 symbolic "
+         "circuits, histories <= 6-7 of NewBase / SymOp / Enter / Exit / ExitExc / Compile "
+         "(explicit or through the active context) / CompOp / BadOp), checks on every state that "
+         "the symbolic<->compiled association is a bijection, operands are compiled first and "
+         "once, objects are never replaced; witness histories carry the abstract state after every "
+         "call and are replayed on real PipelineContext objects, comparing active context, operator "
+         "registry, is_compiled / get_compiled / get_symbolic answers, object identity and compile "
+         "order after EACH call. In the other direction, seeded random sessions (40-80 calls, "
+         "nested contexts, exceptional exits) are recorded as ndjson and validated by "
+         "TracePipeline.tla with object identities matched up to a stable injective renaming.",
+         "Model checking of the context/registry state machine with invariants, replay of TLC "
+         "witness histories with per-step state comparison, and TLC validation of traces recorded "
+         "from the implementation.",
+         "TLA+ state machine (Pipeline.tla) model-checked with TLC; behaviours replayed into "
+         "cirkit; recorded traces validated by TracePipeline.tla",
+         note=("Trusted base: TLC, the replayer/driver, instance-level wrapping of the public "
+               "register_compiled_circuit method to observe compile order, reading the private "
+               "names cirkit.pipeline._PIPELINE_CONTEXT, PipelineContext._compiler and "
+               "PipelineContext._op_registry (read-only). Re-entering an active context is excluded "
+               "as the property excludes it. Bounds: contexts, circuits, history length."))
